@@ -46,7 +46,10 @@ class G:
         if c < 0.45 and self.locals:
             return self.r.choice(list(self.locals))
         if c < 0.62:
-            return self.r.choice(["RsV", "RtV", "RuuV", "RvvV", "PwV", "uiV", "siV"])
+            pool = ["RsV", "RtV", "RuuV", "RvvV", "PwV", "uiV", "siV"]
+            if "alias" not in self.avoid:
+                pool += ["HEX_REG_ALIAS_LR", "HEX_REG_ALIAS_GP", "HEX_REG_ALIAS_UPCYCLE"]
+            return self.r.choice(pool)
         if c < 0.7 and self.depth_loop:
             return self.loopvars[self.r.randrange(self.depth_loop)]
         return self.lit()
@@ -77,9 +80,24 @@ class G:
         if c < 0.88 and "ternary" not in self.avoid:
             lhs = self.expr(d - 1) if "const_cond" not in self.avoid else self.r.choice(["RsV", "RtV", "PwV", "uiV", "siV"])
             return f"(({lhs} {self.r.choice(CMPS)} {self.expr(d - 1)}) ? {self.expr(d - 1)} : {self.expr(d - 1)})"
-        if c < 0.94 and "calls" not in self.avoid:
-            f = self.r.choice(["clz32", "clo32", "fbrev", "revbit32", "clz64", "clo64", "revbit64"])
+        if c < 0.91 and "calls" not in self.avoid:
+            f = self.r.choice(["clz32", "clo32", "fbrev", "revbit32", "clz64", "clo64", "revbit64", "revbit16"])
             return f"{f}({self.expr(d - 1)})"
+        if c < 0.94 and "macros" not in self.avoid:
+            k = self.r.random()
+            if k < 0.3:
+                st, ln = self.r.choice([(0, 16), (8, 8), (0, 32), (16, 16), (4, 7), (0, 1), (31, 1)])
+                return f"{self.r.choice(['sextract64', 'extract64'])}({self.expr(d - 1)}, {st}, {ln})"
+            if k < 0.5:
+                st, ln = self.r.choice([(0, 8), (8, 8), (0, 16), (16, 16), (3, 5)])
+                return f"extract32({self.expr(d - 1)}, {st}, {ln})"
+            if k < 0.7:
+                st, ln = self.r.choice([(0, 8), (8, 8), (0, 16), (16, 16), (32, 32), (5, 9)])
+                return f"deposit64({self.expr(d - 1)}, {st}, {ln}, {self.expr(d - 1)})"
+            if k < 0.8:
+                st, ln = self.r.choice([(0, 8), (8, 8), (0, 16), (16, 16)])
+                return f"deposit32({self.expr(d - 1)}, {st}, {ln}, {self.expr(d - 1)})"
+            return f"{self.r.choice(['bswap16', 'bswap32', 'bswap64'])}({self.expr(d - 1)})"
         if "mem" not in self.avoid:
             w = self.r.choice(["s8", "u8", "s16", "u16", "s32", "u32", "u64", "s64"])
             cast = {"s8": "size1s_t", "u8": "size1u_t", "s16": "size2s_t", "u16": "size2u_t", "s32": "size4s_t", "u32": "size4u_t", "u64": "size8u_t", "s64": "size8s_t"}[w]
@@ -142,8 +160,19 @@ class G:
             w = self.r.choice(["8", "16", "32", "64"])
             self.stores += 1
             return f"mem_store_u{w}((RtV + {self.r.randint(0, 64)}), {self.expr(2)});"
-        if c < 0.96:
+        if c < 0.95:
             return "{ " + self.block(d - 1) + " }"
+        if c < 0.985 and "extras" not in self.avoid:
+            k = self.r.random()
+            if k < 0.25:
+                return f"if ({self.expr(1)}) {{ JUMP({self.expr(1)}); }}"
+            if k < 0.4:
+                return f"if ({self.leaf()} & 1) {{ cancel_slot; }}"
+            if k < 0.6:
+                return f"uiV = uiV {self.r.choice(['&', '+', '|'])} {self.r.choice(['3', '~3', 'RsV', '0x10'])};"
+            if k < 0.8:
+                return f"set_usr_field(bundle, HEX_REG_FIELD_USR_OVF, {self.expr(1)} & 1);"
+            return f"HEX_REG_ALIAS_LR = {self.expr(1)};"
         return ";"
 
     def block(self, d):
@@ -537,8 +566,10 @@ def fold_programs(rng: random.Random, n: int):
     for t in TYPES:
         T(f"sizeof;{t}", f"{{ {t} q = ({t}) RsV; ReV = sizeof(q) + sizeof(RsV) * 16 + sizeof(RuuV) * 256 + sizeof(PwV) * 4096; RddV = sizeof(siV); }}", [("q", t)], vk="sizeof")
     # (4) division: exact results may be folded or rejected, inexact and zero division must be rejected
-    for a, b, must in (("8", "2", False), ("7", "2", True), ("1", "0", True), ("0", "5", False), ("9", "3", False), ("10", "4", True), ("5U", "0U", True), ("1LL", "3", True)):
-        T(f"div;{a};{b}", f"{{ ReV = {a} / {b}; }}", vk="div", must_reject=must)
+    for a, b, must in (("8", "2", False), ("7", "2", True), ("1", "0", True), ("0", "5", False), ("9", "3", False), ("10", "4", True), ("5U", "0U", True), ("1LL", "3", True),
+                       ("0x7ffffffffffffffeLL", "2", False), ("0xffffffffffffffffULL", "3", False), ("0x7fffffffffffffffLL", "2", True), ("9007199254740993LL", "1", False),
+                       ("0xfffffffffffffffdULL", "0xfffffffffffffffdULL", False), ("18014398509481985LL", "2", True), ("0x8000000000000001ULL", "0x10", True)):
+        T(f"div;{a};{b}", f"{{ RddV = {a} / {b}; }}", vk="div", must_reject=must)
     # (5) dead operands of a constant ?: that live code also uses
     dead = [
         ("reg_before", "{ ReV = RsV + RtV; RddV = 1 ? RuuV : RtV; }"),
